@@ -921,8 +921,13 @@ func evalFunctionApplication(node *jparse.FunctionApplicationNode, data reflect.
 	// evaluate it.
 	if f, ok := node.RHS.(*jparse.FunctionCallNode); ok {
 
-		f.Args = append([]jparse.Node{node.LHS}, f.Args...)
-		return evalFunctionCall(f, data, env)
+		// Build a new call node: the parsed expression is shared
+		// by every evaluation and must not be modified.
+		call := &jparse.FunctionCallNode{
+			Func: f.Func,
+			Args: append([]jparse.Node{node.LHS}, f.Args...),
+		}
+		return evalFunctionCall(call, data, env)
 	}
 
 	// Evaluate both sides and return any errors.
